@@ -79,6 +79,14 @@ impl Dependencies {
 
 impl ToTokens for Dependencies {
     fn to_tokens(&self, tokens: &mut TokenStream) {
+        #[cfg(ts_rs_verif)]
+        if true {
+            return crate::verif::dependencies_to_tokens(
+                &self.crate_rename,
+                self.dependencies.iter(),
+                tokens,
+            );
+        }
         let lines = self.dependencies.iter();
 
         tokens.extend(quote![
